@@ -319,6 +319,7 @@ Definition R_tar_prefix_offset : nat := 345.
 Definition R_tar_prefix_size : nat := 155.
 Definition R_tar_header_size : nat := 500.
 Definition GNUTAR_header_first : bool := true.
+Definition USTAR_join_always_slash : bool := false.
 Definition ustar_template : list Z := [
   0; 0; 0; 0; 0; 0; 0; 0; 0; 0; 0; 0; 0; 0; 0; 0; 0; 0; 0; 0; 0; 0; 0; 0; 0; 0; 0; 0; 0; 0; 0; 0;
   0; 0; 0; 0; 0; 0; 0; 0; 0; 0; 0; 0; 0; 0; 0; 0; 0; 0; 0; 0; 0; 0; 0; 0; 0; 0; 0; 0; 0; 0; 0; 0;
